@@ -343,6 +343,23 @@ def run_shard(shard, tier, seed, acc):
                                 acc.violation('modelcheck-accepts-non-member-lazily',
                                               {'tree': spaces.to_jsonable(t), 'tree_str': spaces.fstr(t),
                                                'checker': 'LTL', 'mode': mode, 'F': repr(F)}, 'TypeError', res[:2])
+        # rejected constructions / casts must raise TypeError whatever the atoms are called
+        for nm in ('{', '}', '{q}', '{0}', '%s', '%(x)s', '{req,ack}', 'p' * 200, '', ' ', '\\', "it's"):
+            ap = lambda L_: L_.AtomicProposition(nm)
+            bads = [lambda: lib.CTL.A(ap(lib.CTL)), lambda: lib.CTL.Not(lib.CTL.X(ap(lib.CTL))),
+                    lambda: lib.CTLS.A(lib.CTLS.G(lib.CTLS.G(ap(lib.CTLS)))).cast_to(lib.CTL),
+                    lambda: lib.LTL.X(lib.LTL.A(ap(lib.LTL))), lambda: lib.PL.Not(lib.CTLS.X(ap(lib.CTLS))),
+                    lambda: lib.CTLS.E(lib.CTLS.X(ap(lib.CTLS))).cast_to(lib.LTL),
+                    lambda: lib.CTL.E(lib.CTL.U(lib.CTL.X(ap(lib.CTL)), ap(lib.CTL))),
+                    lambda: lib.LTL.modelcheck(Kl, lib.CTLS.A(lib.CTLS.E(ap(lib.CTLS)))),
+                    lambda: lib.CTL.modelcheck(Kl, lib.CTLS.A(lib.CTLS.F(lib.CTLS.G(ap(lib.CTLS)))))]
+            for bi, b in enumerate(bads):
+                res = call(b)
+                acc.ev(1, 1)
+                if not (res[0] == 'exc' and res[1] == 'TypeError'):
+                    acc.violation('modelcheck-accepts-non-member-lazily',
+                                  {'tree': ['ap', nm], 'tree_str': 'rejected construction #%d with atom %r' % (bi, nm),
+                                   'checker': '-', 'mode': 'hostile-atom', 'F': 'None'}, 'TypeError', res[:2])
         for q in offenders['CTL']:
             for cx in ctxs[:11]:
                 t = cx(q)
